@@ -3,6 +3,7 @@ import OpusProofs.SilkPlcConceal
 import OpusProofs.SilkPlcInv
 import OpusProofs.SilkPlcDecay
 import OpusProofs.SilkPlcCng
+import OpusProofs.SilkPlcTotal
 /-
   OpusProps.C09SilkPlc — property theorems of the C09 extension `SilkPlc`: SILK's packet-loss concealment, comfort
   noise and frame glue (silk/PLC.c, silk/CNG.c) as the bit-exact value model OpusModel.SilkPlc{ConcealFix,Conceal,
@@ -234,5 +235,27 @@ example : (match silkCNG { fsKHz := 8, nbSubfr := 2, subfrLength := 40, lpcOrder
                            randSeed := 1, fsKHz := 8 } [100, -32768, 32767] with
            | .ok (f, c') => decide (f = [100, -32768, 32767] ∧ c'.synthState.take 10 = List.replicate 10 0)
            | _ => false) = true := by decide +kernel
+
+
+/-! ### checked reads -/
+
+/-- Per-read index bounds of the LTP synthesis loop of silk_PLC_conceal (PLC.c:331-363), on the CHECKED twin
+    `ltpLoopC` (OpusModel.SilkPlcConcealChk: every read of `sLTP_Q14` through `pred_lag_ptr` and of `exc_Q14` through
+    `rand_ptr` goes through an accessor that answers `.oob` outside the array): at an internal rate, with five taps,
+    `pitchL_Q8` within [2, 18] ms (`PlcInv`), at least `ltp_mem_length` = 20 ms of samples in `sLTP_Q14` and
+    `rand_ptr + RAND_BUF_SIZE` inside `exc_Q14`, `.oob` is never taken over any number of sub-frames (the drifting lag stays
+    ≤ 18 ms < the buffer filled so far), and the checked loop returns exactly what the unchecked model (the one the tie
+    compares) returns.  (The whole-function statement `conceal_total` — energy and re-whitening reads included — is not
+    closed; their lemmas `energyRowC_ok`, `firRowsC_ok` are in OpusProofs/SilkPlcTotal.lean.) -/
+theorem conceal_ltp_reads_in_bounds (rnd : Array Int) (roff : Int) (sl : Nat) (fs harm rg : Int) (hfs : FsOk fs)
+    (hr0 : 0 ≤ roff) (hr1 : roff + 128 ≤ rnd.size) (k : Nat) (s : LtpLoop) (hB : s.B.length = 5)
+    (hp : 512 * fs ≤ s.pq8 ∧ s.pq8 ≤ 4608 * fs) (hs : 20 * fs ≤ s.buf.size) :
+    ltpLoopC rnd roff sl fs harm rg k s = .ok (ltpLoop rnd roff sl fs harm rg k s) :=
+  ltpLoopC_ok rnd roff sl fs harm rg hfs hr0 hr1 k s hB hp hs
+
+example : FsOk 8 ∧ (0 : Int) ≤ 32 ∧ (32 : Int) + 128 ≤ (Array.replicate 320 (0 : Int)).size ∧
+    ([0, 0, 11469, 0, 0] : List Int).length = 5 ∧ (512 * 8 ≤ (15360 : Int) ∧ (15360 : Int) ≤ 4608 * 8) ∧
+    (20 * 8 : Int) ≤ (Array.replicate 160 (0 : Int)).size := by
+  refine ⟨Or.inl rfl, by decide, by simp, rfl, by decide, by simp⟩
 
 end OpusProps.C09SilkPlc
